@@ -157,7 +157,9 @@ func bystanders(w *mon.SessWorld, g *gen.Gen, cfg string) ([]string, *bool) {
 	}
 }
 
-func runSeq(run *ev.Run, caseID string, r *rand.Rand, cfg string, seq []symbol, grpc bool) {
+var startStates = []string{"fresh", "negotiated", "negotiated+primary", "negotiated+non-primary"}
+
+func runSeq(run *ev.Run, caseID string, r *rand.Rand, cfg string, start string, seq []symbol, grpc bool) {
 	g := gen.New(r)
 	g.S.Default = server.DefaultNetworkInstanceName
 	g.NextID = 1000
@@ -170,6 +172,31 @@ func runSeq(run *ev.Run, caseID string, r *rand.Rand, cfg string, seq []symbol, 
 	probs, ack := bystanders(w, g, cfg)
 	subject, p := w.Connect()
 	probs = append(probs, p...)
+	if start != "fresh" && len(probs) == 0 {
+		fib := false
+		if ack != nil {
+			fib = *ack
+		}
+		pp := w.SendParams(subject, drv.SinglePrimary(fib))
+		if !subject.Open && cfg != "none" && len(pp) == 0 {
+			// an un-negotiated bystander may legitimately keep the subject out: nothing to explore from here
+			run.Count("start_state_unreachable", 1)
+			return
+		}
+		probs = append(probs, pp...)
+		switch start {
+		case "negotiated+primary":
+			probs = append(probs, w.SendElection(subject, relID(w, "high"))...)
+		case "negotiated+non-primary":
+			if w.Max == nil {
+				// no bystander primary: make the subject announce, then be superseded by nobody -> it is primary; skip
+				run.Count("start_state_unreachable", 1)
+				return
+			}
+			probs = append(probs, w.SendElection(subject, relID(w, "low"))...)
+		}
+		probs = append(probs, w.CompareState()...)
+	}
 	for _, sym := range seq {
 		if len(probs) > 0 || !subject.Open {
 			break
@@ -226,9 +253,10 @@ func TestCheck(t *testing.T) {
 	run := ev.Start(t, "C09", "exploration")
 	al := alphabet()
 	type job struct {
-		id  string
-		cfg string
-		seq []symbol
+		id    string
+		cfg   string
+		start string
+		seq   []symbol
 	}
 	var jobs []job
 	var rec func(prefix []symbol, depth int)
@@ -240,7 +268,9 @@ func TestCheck(t *testing.T) {
 				names = append(names, s.name)
 			}
 			for _, cfg := range bystanderCfgs {
-				jobs = append(jobs, job{id: cfg + ":" + strings.Join(names, ","), cfg: cfg, seq: append([]symbol{}, prefix...)})
+				for _, st := range startStates {
+					jobs = append(jobs, job{id: cfg + ":" + st + ":" + strings.Join(names, ","), cfg: cfg, start: st, seq: append([]symbol{}, prefix...)})
+				}
 			}
 		}
 		if depth == maxLen {
@@ -268,14 +298,14 @@ func TestCheck(t *testing.T) {
 				seq = append(seq, al[[]int{6, 7, 9, 10, 11, 12}[r.Intn(6)]])
 			}
 		}
-		jobs = append(jobs, job{id: id, cfg: bystanderCfgs[r.Intn(len(bystanderCfgs))], seq: seq})
+		jobs = append(jobs, job{id: id, cfg: bystanderCfgs[r.Intn(len(bystanderCfgs))], start: startStates[r.Intn(len(startStates))], seq: seq})
 	}
 	ev.Parallel(len(jobs), ev.Workers(), func(i int) {
 		j := jobs[i]
 		if !run.Want(j.id) {
 			return
 		}
-		runSeq(run, j.id, run.Rand(j.id), j.cfg, j.seq, i%97 == 0)
+		runSeq(run, j.id, run.Rand(j.id), j.cfg, j.start, j.seq, i%97 == 0)
 		if i%97 == 0 {
 			run.Count("sequences_over_real_grpc", 1)
 		}
@@ -284,7 +314,7 @@ func TestCheck(t *testing.T) {
 	for _, s := range al {
 		names = append(names, s.name)
 	}
-	run.Sample(map[string]any{"alphabet": names, "bystander_configurations": bystanderCfgs})
+	run.Sample(map[string]any{"alphabet": names, "bystander_configurations": bystanderCfgs, "start_states": startStates})
 	run.Assume("expected termination statuses: INVALID_ARGUMENT for multi-field messages and the zero id; FAILED_PRECONDITION+MODIFY_NOT_ALLOWED for late/repeated parameters; UNIMPLEMENTED or FAILED_PRECONDITION with UNSUPPORTED_PARAMS for unsupported modes; FAILED_PRECONDITION+PARAMS_DIFFER_FROM_OTHER_CLIENTS for differing parameters; FAILED_PRECONDITION+ELECTION_ID_IN_ALL_PRIMARY for an election id without SINGLE_PRIMARY; UNIMPLEMENTED+UNSUPPORTED_PARAMS for operations without negotiation; any non-OK status (or in-band FAILED) for operations without / before / above an election id. Where two violations coincide either status is accepted; whether an un-negotiated live session constrains newcomers is left open")
-	run.Finish("ALL sequences of length <= 3 over an 18-symbol alphabet {8 session-parameter combinations, election zero/low/equal/high, operation with/without id, 4 multi-field messages} on one session, in each of 6 bystander configurations (none; negotiated RIB/FIB primary with installed entries; un-negotiated session; combinations) - exhaustive for that space - plus random sequences of length 4-12; after EVERY message the termination status (code + ModifyRPCErrorDetails reason), the complete hooked server state vs the model and the silence of the other streams are checked; afterwards a fresh session must be able to negotiate and sees the unchanged maximum id. 1 in 97 sequences run over real gRPC", 1000, false)
+	run.Finish("ALL sequences of length <= 3 over an 18-symbol alphabet {8 session-parameter combinations, election zero/low/equal/high, operation with/without id, 4 multi-field messages} on one session started in each of 4 states (fresh; negotiated; negotiated and primary; negotiated and superseded), in each of 6 bystander configurations (none; negotiated RIB/FIB primary with installed entries; un-negotiated session; combinations) - exhaustive for that space - plus random sequences of length 4-12; after EVERY message the termination status (code + ModifyRPCErrorDetails reason), the complete hooked server state vs the model and the silence of the other streams are checked; afterwards a fresh session must be able to negotiate and sees the unchanged maximum id. 1 in 97 sequences run over real gRPC", 1000, false)
 }
